@@ -17,13 +17,14 @@ DecPd(j) ==
      cosa |-> InRat(j.cosa), m |-> j.m, n |-> j.n,
      fl |-> Fn([dof \in 1..3 |-> <<RatSeq(j.fl[dof][1]), RatSeq(j.fl[dof][2])>>]),
      stack |-> Fn([k \in 1..Len(j.stack) |-> DecPly(j.stack[k])]), off |-> InRat(j.off),
-     y1 |-> InRat(j.y1), y2 |-> InRat(j.y2), mu |-> InRat(j.mu), Ncte |-> RatSeq(j.Ncte)]
+     y1 |-> InRat(j.y1), y2 |-> InRat(j.y2), mu |-> InRat(j.mu), Ncte |-> RatSeq(j.Ncte),
+     ortho |-> IF "ortho" \in DOMAIN j THEN j.ortho ELSE FALSE]
 Pts(s) == Fn([k \in 1..Len(s) |-> <<InRat(s[k][1]), InRat(s[k][2])>>])
 Forces(s) == Fn([k \in 1..Len(s) |-> RatSeq(s[k])])
 Taper(j) == IF "taper" \in DOMAIN j THEN RatSeq(j.taper) ELSE Uniform
 DecReq(j) ==
     LET pl == [size |-> j.size, row0 |-> j.row0, col0 |-> j.col0]
-    IN CASE j.q = "k0"  -> [q |-> "k0"] @@ pl
+    IN CASE j.q = "k0"  -> [q |-> IF "num" \in DOMAIN j THEN "k0num" ELSE "k0"] @@ pl
          [] j.q = "kG0" -> [q |-> "kG0", N |-> RatSeq(j.N)] @@ pl
          [] j.q = "kM"  -> [q |-> "kM"] @@ pl
          [] j.q = "kA"  -> [q |-> "kA", flow |-> j.flow, beta |-> InRat(j.beta), gamma |-> InRat(j.gamma)] @@ pl
